@@ -29,6 +29,7 @@ fn t_strategy() -> BoxedStrategy<URecipe> {
         1 => Just(URecipe::One),
         1 => Just(URecipe::MinusOne),
         2 => any::<bool>().prop_map(URecipe::Exceptional),
+        1 => any::<u16>().prop_map(URecipe::StagePreimage),
     ]
     .boxed()
 }
@@ -50,6 +51,7 @@ fn t_g1(c: &SwuCase) -> Fq {
             let (a, b) = h2c::g1_exceptional_roots();
             if *s { a } else { b }
         }
+        URecipe::StagePreimage(_) => super::c14::u_g1(&c.t),
     };
     if c.negate { t.neg() } else { t }
 }
@@ -64,6 +66,7 @@ fn t_g2(c: &SwuCase) -> Fq2 {
             let (a, b) = h2c::g1_exceptional_roots();
             Fq2::new(Fq::zero(), if *s { a } else { b })
         }
+        URecipe::StagePreimage(_) => super::c14::u_g2(&c.t),
     };
     if c.negate { t.neg() } else { t }
 }
